@@ -12,7 +12,7 @@ from ..fold import UNKNOWN, known
 from ..model import AnalysisError, Class, Func, own_nodes, src
 from ..pathsem import function_paths, resolve_local
 from ..typeinf import classes_of
-from .common import call_keywords, chain, chains_in, deep_resolve, first_difference, inline_helper_call, mentions, names_in, norm_field, normalised_body
+from .common import call_keywords, loop_body_paths, chain, chains_in, deep_resolve, first_difference, inline_helper_call, mentions, names_in, norm_field, normalised_body
 
 PROPERTY = "C01"
 LEVEL = "other"
@@ -759,8 +759,120 @@ def option_tokens(ctx: Ctx, rep: Report, rid: str = "R01.8") -> None:
     rep.require(found >= 1, "Option.line setter: no tokeniser (split / re.findall / re.split on the line) found")
 
 
+def has_port_twin(ctx: Ctx, rep: Report, rid: str = "R01.12") -> None:
+    """The protocol is rendered as a name or as a number depending on whether the entry carries a port: the flag that
+    says so is computed from the source port AND the destination port, once."""
+    rep.rule(rid)
+    ls = ctx.func("Ace.line.setter")
+    stores = [n for n in own_nodes(ls.node) if isinstance(n, ast.Assign) and any(isinstance(t, ast.Attribute) and t.attr in ("has_port", "_has_port") for t in n.targets)]
+    rep.instance()
+    if not stores:
+        rep.ok("Ace.line setter: has_port", "not set here (nothing to agree on)", nontrivial=False, where=where(ls))
+        return
+    bad = None
+    for st in stores:
+        fields = {norm_field(ls.cls, c[1]) for c in chains_in(st.value) if c[0] == "self" and len(c) >= 2}
+        if not {"_srcport", "_dstport"} <= fields:
+            bad = (st, sorted(fields))
+    if bad is not None:
+        rep.violation("Ace.line.setter", snippet(bad[0]), f"the port-presence flag of the protocol is computed from {bad[1]} only: with a port on the other side alone the protocol is rendered in the wrong spelling", where(ls, bad[0]), inp="permit tcp any eq 21 any with protocol_nr=True")
+    elif len(stores) > 1:
+        rep.violation("Ace.line.setter", "; ".join(snippet(s_, 40) for s_ in stores), "the port-presence flag is stored more than once: the later store overrides the earlier", where(ls, stores[-1]))
+    else:
+        rep.ok(f"Ace.line setter: {snippet(stores[0], 70)}", "reads the source and the destination port", where=where(ls, stores[0]))
+
+
+def option_partition(ctx: Ctx, rep: Report, rid: str = "R01.11") -> None:
+    """The option text is kept as written: the stored text is the normalised input, and its words are split into flags
+    and log keywords by membership in LOGS only - every word lands in exactly one of the two lists, in the order it was
+    written (value-carrying options such as `dscp af11` keep their order; a flag written after `log` is still a flag)."""
+    rep.rule(rid)
+    f = ctx.func("Option.line.setter")
+    param = f.params[1]
+    senv = single_env_(f)
+    cfg = ctx.cfg(f)
+    stores: Dict[str, ast.AST] = {}
+    for n in own_nodes(f.node):
+        if isinstance(n, ast.Assign) and len(n.targets) == 1 and isinstance(n.targets[0], ast.Attribute) and src(n.targets[0].value) == "self" and n.targets[0].attr in ("_flags", "_logs", "_line"):
+            stores[n.targets[0].attr] = n
+    rep.instance()
+    rep.require({"_flags", "_logs", "_line"} <= set(stores), "Option.line setter no longer stores _flags, _logs and _line")
+    # the text
+    lv = stores["_line"].value
+    if isinstance(lv, ast.Name) and lv.id == param:
+        rep.ok("Option.line setter: _line", "the normalised input itself", where=where(f, stores["_line"]))
+    else:
+        rep.violation("Option.line.setter", snippet(stores["_line"]), "the stored option text is rebuilt instead of being the normalised input: the order (or multiplicity) of its words can change", where(f, stores["_line"]), inp="permit ip any any dscp af11  ->  'af11 dscp'")
+
+    def base_tokens(e: ast.AST) -> Optional[str]:
+        """Name of the token list an expression filters by LOGS membership only; None when it does something else."""
+        for _ in range(4):
+            if isinstance(e, ast.Name) and e.id in senv and not isinstance(senv[e.id], (ast.ListComp,)):
+                e = senv[e.id]
+            else:
+                break
+        return src(e) if isinstance(e, ast.Name) else None
+
+    verdict: Dict[str, Tuple[bool, str, Optional[str]]] = {}
+    for attr, want_in in (("_flags", False), ("_logs", True)):
+        v = stores[attr].value
+        ok, why, base = False, "", None
+        if isinstance(v, ast.ListComp) and len(v.generators) == 1 and src(v.elt) == src(v.generators[0].target) and len(v.generators[0].ifs) == 1:
+            c = v.generators[0].ifs[0]
+            neg = False
+            while isinstance(c, ast.UnaryOp) and isinstance(c.op, ast.Not):
+                neg, c = not neg, c.operand
+            if isinstance(c, ast.Compare) and len(c.ops) == 1 and isinstance(c.ops[0], (ast.In, ast.NotIn)) and src(c.left) == src(v.generators[0].target) and src(c.comparators[0]).endswith("LOGS"):
+                is_in = isinstance(c.ops[0], ast.In) != neg
+                base = base_tokens(v.generators[0].iter)
+                ok = is_in == want_in and base is not None
+                why = f"[w for w in {base} if w {'in' if is_in else 'not in'} LOGS]"
+        elif isinstance(v, ast.Name):
+            # loop form: the list is filled by appends inside one loop over the tokens, chosen by `in LOGS`
+            loops = [l for l in cfg.live if l.kind == "for"]
+            for lp in loops:
+                var = src(lp.ast.target)
+                good = True
+                seen = False
+                for path in loop_body_paths(cfg, lp):
+                    if path[-1][0] is not lp:
+                        continue
+                    atoms = [(nd.ast, lab == "T") for nd, lab in path if nd.kind == "cond" and lab in ("T", "F")]
+                    is_log = [tr for t, tr in atoms if isinstance(t, ast.Compare) and len(t.ops) == 1 and isinstance(t.ops[0], ast.In) and src(t.left) == var and src(t.comparators[0]).endswith("LOGS")]
+                    appended = [src(x.func.value) for nd, _ in path if nd.kind == "stmt" and nd.ast is not None for x in ast.walk(nd.ast) if isinstance(x, ast.Call) and isinstance(x.func, ast.Attribute) and x.func.attr == "append" and x.args and src(x.args[0]) == var]
+                    if not is_log:
+                        good = False
+                        continue
+                    seen = True
+                    mine = appended.count(v.id)
+                    if (is_log[0] == want_in and (mine != 1 or len(appended) != 1)) or (is_log[0] != want_in and mine != 0):
+                        good = False
+                if seen and good:
+                    ok, why, base = True, f"filled in the loop over {src(lp.ast.iter)}: each word appended once, by `in LOGS`", base_tokens(lp.ast.iter) or src(lp.ast.iter)
+        verdict[attr] = (ok, why, base)
+        rep.instance()
+        if ok:
+            rep.ok(f"Option.line setter: {attr}", why, where=where(f, stores[attr]))
+        else:
+            rep.violation("Option.line.setter", snippet(stores[attr]), f"{attr} is not the order-preserving selection of the words by membership in LOGS: words are dropped, re-ordered or moved between flags and log keywords", where(f, stores[attr]), inp="permit tcp any any log ack  ->  'ack' is no longer a flag")
+    rep.instance()
+    b1, b2 = verdict["_flags"][2], verdict["_logs"][2]
+    if verdict["_flags"][0] and verdict["_logs"][0] and b1 != b2:
+        rep.violation("Option.line.setter", f"_flags from {b1}, _logs from {b2}", "flags and log keywords are selected from different word lists: a word can be lost or counted twice", where(f))
+    elif verdict["_flags"][0] and verdict["_logs"][0]:
+        rep.ok("Option.line setter: partition", f"both lists select from {b1}", where=where(f))
+
+
+def single_env_(f: Func):
+    from .common import single_env
+
+    return single_env(f.node)
+
+
 def run(ctx: Ctx, rep: Report, tier: str) -> None:
     option_tokens(ctx, rep)
+    option_partition(ctx, rep)
+    has_port_twin(ctx, rep)
     normaliser_total(ctx, rep)
     # R01.9 operands of a valid ACE are accepted: the operand range is exactly the port universe (C08 R08.8)
     from .c08 import operand_range
